@@ -552,6 +552,14 @@ func checkBinary(c Case, bin string, race bool) (st binStats, err error) {
 			}
 		}
 	}
+	// the Go runtime aborting the process (concurrent map access, deadlock ...) is a
+	// result that depends on scheduling, whichever run it hits
+	for i, r := range results {
+		if idx := strings.Index(r.Stderr, "fatal error:"); idx >= 0 {
+			return st, fmt.Errorf("pint died with a Go runtime fatal error (exit status %d) with --workers=%d GOMAXPROCS=%d:\n%s",
+				r.Exit, c.Settings[i].Workers, c.Settings[i].MaxProcs, tailOf(r.Stderr[idx:min(len(r.Stderr), idx+1500)], 1500))
+		}
+	}
 	canon := results[0]
 	if !canon.JSONOK {
 		// the canonical run did not complete linting (config error, crash ...): every other
@@ -739,13 +747,13 @@ func excluded() map[string]bool {
 func genOpts(online, bulk bool) c05.GenOpts {
 	return c05.GenOpts{CommentPerKind: excluded()[classDetailsTie],
 		MinFiles: 2, MaxFiles: 5, MaxGroups: 2, MaxRules: 5, PoolSize: 5, ParseErrors: true, Symlinks: true,
-		Online: online, MinRuleBlocks: 2, Bulk: bulk, Styles: c05.DefaultStyles()}
+		Online: online, MinRuleBlocks: 2, Bulk: bulk, PromFilters: true, Styles: c05.DefaultStyles()}
 }
 
 func genPermCase(t *rapid.T) Case {
 	c := Case{Layer: "perm"}
 	c.Input = c05.GenInput(t, genOpts(false, false))
-	c.Offline = rapid.Bool().Draw(t, "offline")
+	c.Offline = rapid.Bool().Draw(t, "offline") || c.Input.ClosedProm()
 	return c
 }
 
@@ -775,7 +783,7 @@ func genBinCase(layer string) func(t *rapid.T) Case {
 		online := rapid.IntRange(0, 2).Draw(t, "online") == 0
 		c.Input = c05.GenInput(t, genOpts(online, true))
 		if !online {
-			c.Offline = rapid.Bool().Draw(t, "offline")
+			c.Offline = rapid.Bool().Draw(t, "offline") || c.Input.ClosedProm()
 		}
 		c.ArgStyle = rapid.SampledFrom([]string{"files", "files", "dirs", "dot"}).Draw(t, "argstyle")
 		c.ShowDup = rapid.IntRange(0, 3).Draw(t, "showdup") == 0
